@@ -33,6 +33,7 @@ def step (line : String) : String :=
     | some n => "ok " ++ toString n
     | none => "err:ValueError"
   | ["upper", s] => "ok " ++ encChars ((decStr s).map upperChar)
+  | "hist" :: toks => histStep toks
   | _ => "bad-op"
 
 def main : IO Unit := mainLoop step
